@@ -1,36 +1,145 @@
-'''textual mutants used by vf.selftest (file paths relative to Python/dawgie)'''
+'''textual mutants used by vf.selftest (file paths relative to Python/dawgie)
+
+Each mutant is one realistic slip; `python -m vf.selftest [IDs]` applies it to a
+scratch copy of /repo/Python and expects the property's quick check to exit 1.
+A mutant whose pattern no longer occurs is reported (not silently skipped).
+'''
+
+S = 'pl/schedule.py'
+F = 'pl/farm.py'
 
 MUTANTS = {
+    'C01': [
+        dict(name='release-filter-ignores-executing-ancestors', file=S,
+             old="                        target in dependency.get('todo')\n                        or target in dependency.get('doing')\n",
+             new="                        target in dependency.get('todo')\n"),
+        dict(name='release-filter-ignores-all-targets-marker', file=S,
+             old="                        target == '__all__'\n                        or '__all__' in dependency.get('todo')\n                        or '__all__' in dependency.get('doing')\n",
+             new="                        target == '__all__'\n"),
+        dict(name='ancestry-stops-at-grandparents', file='pl/dag.py',
+             old='                parents = grands\n', new='                parents = set()\n'),
+    ],
+    'C02': [
+        dict(name='update-ignores-isnew', file=S,
+             old='        for vn, _isnew in filter(lambda t: t[1], values):', new='        for vn, _isnew in values:'),
+        dict(name='update-matches-on-state-vector', file=S,
+             old="                if dawgie.util.vref_as_name(vref) in vns:",
+             new="                if any(dawgie.util.vref_as_name(vref).rsplit('.', 1)[0] == v.rsplit('.', 1)[0] for v in vns):"),
+        dict(name='res-updates-before-complete-only-on-new', file=F,
+             old="                dawgie.pl.schedule.update(msg.values, job, msg.runid)\n",
+             new="                if dawgie.pl.farm.ARCHIVE:\n                    dawgie.pl.schedule.update(msg.values, job, msg.runid)\n"),
+    ],
+    'C03': [
+        dict(name='dispatch-keeps-do', file=F, old="            j.get('do').clear()\n", new="            pass\n"),
+        dict(name='res-keeps-busy-entry', file=F,
+             old="        while 0 < _busy.count(done):\n            _busy.remove(done)\n", new="        while False:\n            _busy.remove(done)\n"),
+        dict(name='complete-keeps-doing', file=S,
+             old="    elif target in job.get('doing'):\n        job.get('doing').remove(target)\n", new="    elif target in job.get('doing'):\n        pass\n"),
+    ],
+    'C04': [
+        dict(name='complete-never-dequeues', file=S,
+             old="    if not (job.get('todo') or job.get('doing')):\n        que.remove(job)\n", new="    if not (job.get('todo') or job.get('doing')):\n        pass\n"),
+        dict(name='organize-queues-idle-nodes', file=S,
+             old="        filter(lambda j: j.get('todo') or j.get('doing'), jobs.values()),", new="        jobs.values(),"),
+        dict(name='purge-leaves-queue-entry', file=S,
+             old="        and any(job is node for job in que)\n", new="        and False\n"),
+    ],
+    'C05': [
+        dict(name='purge-does-not-recurse', file=S,
+             old="    for child in node:\n        purge(child, target)\n    return\n", new="    return\n"),
+        dict(name='purge-removes-all-targets', file=S,
+             old="    if target in node.get('todo', []):\n        node.get('todo').remove(target)\n",
+             new="    if target in node.get('todo', []):\n        node.get('todo').clear()\n"),
+        dict(name='failure-calls-update', file=F,
+             old="            else:\n                dawgie.pl.schedule.purge(job, inc)\n",
+             new="            else:\n                dawgie.pl.schedule.purge(job, inc)\n                dawgie.pl.schedule.update(msg.values or [('0.%s.%s.x.y' % (inc, job.tag), True)], job, msg.runid)\n"),
+    ],
+    'C06': [
+        dict(name='fallback-picks-lowest-run', file='db/shelve/model.py', old="                                pk = spks[-1]\n", new="                                pk = spks[0]\n"),
+        dict(name='key-without-value-version', file='db/shelve/model.py',
+             old="        vid = self._update_cmd(vn, sid, Table.value, None, sv[vn]._get_ver())[1]\n        return (runid, trgtid, tid, aid, sid, vid)",
+             new="        vid = self._update_cmd(vn, sid, Table.value, None, None)[1]\n        return (runid, trgtid, tid, aid, sid, vid)"),
+    ],
+    'C07': [
+        dict(name='isnew-is-exists', file='db/shelve/model.py', old="                    isnew = not self._set_prime(vname, sv[k])\n", new="                    isnew = bool(self._set_prime(vname, sv[k]))\n"),
+        dict(name='catalogue-before-move', file='db/shelve/comms.py',
+             old="            value, exists = dawgie.db.util.move(*request.value)\n            key = str(request.keyset)\n            DBI().tables[request.table.value][key] = value\n",
+             new="            key = str(request.keyset)\n            DBI().tables[request.table.value][key] = request.value[1]\n            value, exists = dawgie.db.util.move(*request.value)\n"),
+    ],
+    'C08': [
+        dict(name='next-without-plus-one', file='db/shelve/__init__.py', old="    return max(known) + 1 if known else 1\n", new="    return max(known) if known else 1\n"),
+        dict(name='subset-prefix-match', file='db/shelve/util.py',
+             old="                        lambda t, sn=surname, vsn=versioned: t[0] == sn\n                        or t[0].startswith(vsn),",
+             new="                        lambda t, sn=surname, vsn=versioned: t[0].startswith(sn),"),
+        dict(name='append-reuses-table-length', file='db/shelve/util.py', old="        table[name] = len(index)\n", new="        table[name] = max(0, len(table) - 1)\n"),
+    ],
     'C09': [
-        dict(
-            name='ancestry-stops-at-grandparents',
-            file='pl/dag.py',
-            old='                parents = grands\n',
-            new='                parents = set()\n',
-        ),
-        dict(
-            name='as_vref-skips-SV_REF',
-            file='util/refs.py',
-            old='            yield from svref2vref(reference)\n        if isinstance(reference, dawgie.ALG_REF)',
-            new='            pass\n        if isinstance(reference, dawgie.ALG_REF)',
-        ),
-        dict(
-            name='parents-same-task-test',
-            file='pl/dag.py',
-            old='if self.trim(child.tag, 2) != self.trim(node.tag, 2):',
-            new='if self.trim(child.tag, 1) != self.trim(node.tag, 1):',
-        ),
-        dict(
-            name='feedback-added-as-child',
-            file='pl/dag.py',
-            old="                node.get('feedback').add(self._flat[fbn])\n",
-            new="                node.get('feedback').add(self._flat[fbn])\n                self._flat[fbn].add(node)\n",
-        ),
-        dict(
-            name='parents-recursion-drops-known-late',
-            file='pl/dag.py',
-            old='            for child in children:\n                child.get(\'parents\').add(node)\n            children = list',
-            new='            for child in filter(lambda n, k=known: n.tag not in k, children):\n                child.get(\'parents\').add(node)\n            children = list',
-        ),
+        dict(name='ancestry-stops-at-grandparents', file='pl/dag.py', old='                parents = grands\n', new='                parents = set()\n'),
+        dict(name='as_vref-skips-SV_REF', file='util/refs.py',
+             old='            yield from svref2vref(reference)\n        if isinstance(reference, dawgie.ALG_REF)', new='            pass\n        if isinstance(reference, dawgie.ALG_REF)'),
+        dict(name='parents-same-task-test', file='pl/dag.py',
+             old='if self.trim(child.tag, 2) != self.trim(node.tag, 2):', new='if self.trim(child.tag, 1) != self.trim(node.tag, 1):'),
+        dict(name='feedback-added-as-child', file='pl/dag.py',
+             old="                node.get('feedback').add(self._flat[fbn])\n", new="                node.get('feedback').add(self._flat[fbn])\n                self._flat[fbn].add(node)\n"),
+    ],
+    'C10': [
+        dict(name='wrong-dest-on-one-edge', file='pl/state.dot',
+             old="                           source=gitting,\n                           dest=running];", new="                           source=gitting,\n                           dest=loading];"),
+        dict(name='archive-done-ignores-prior', file='pl/state.py', old="        getattr(self, self.__prior + '_trigger')()\n", new="        self.running_trigger()\n"),
+        dict(name='load-done-keeps-entering', file='pl/state.py',
+             old="        def done(*_args, **_kwds):\n            self.transitioning = Status.active\n            self.contemplation_trigger()\n",
+             new="        def done(*_args, **_kwds):\n            self.contemplation_trigger()\n"),
+    ],
+    'C11': [
+        dict(name='reg-accepts-any-revision', file=F, old="        if msg.revision != dawgie.context.git_rev:\n            dawgie.pl.message.send(self._abort, self)\n            log.warning('Worker and pipeline revisions are not the same.')",
+             new="        if False:\n            dawgie.pl.message.send(self._abort, self)\n            log.warning('Worker and pipeline revisions are not the same.')"),
+        dict(name='connection-lost-keeps-worker', file=F, old="        while 0 < _workers.count(self):\n            _workers.remove(self)\n        return", new="        return"),
+        dict(name='rerunid-always-fresh', file=F, old="    if runid is None:\n        runid = dawgie.db.next()", new="    if True:\n        runid = dawgie.db.next()"),
+        dict(name='dispatch-ignores-activity', file=F, old="    if not dawgie.context.fsm.is_pipeline_active():\n        log.debug(\"Pipeline is not active. Returning from farm.dispatch().\")\n        return False",
+             new="    if False:\n        return False"),
+    ],
+    'C12': [
+        dict(name='priority-max-prefers-weaker', file='tools/submit.py', old="            if a == Priority.CREW and result != Priority.NOW:\n                result = a", new="            if a == Priority.CREW and result == Priority.TODO:\n                result = a"),
+        dict(name='doing-does-not-cancel-todo', file='pl/state.py', old="        self.wait_on_doing.clear()\n        self.wait_on_todo.set()\n", new="        self.wait_on_doing.clear()\n"),
+        dict(name='done-fires-unconditionally', file='pl/state.py', old="            self.todo_thread = None\n            if self.waiting_on_todo():", new="            self.todo_thread = None\n            if True:"),
+    ],
+    'C13': [
+        dict(name='connection-lost-keeps-lock', file='db/shelve/comms.py', old="        if self.__has_lock:\n            log.debug(\"ConnectionLost: Release lock after losing connection =(\")\n            self._unlock_db()", new="        if False:\n            self._unlock_db()"),
+        dict(name='grant-without-reading-status', file='db/shelve/comms.py', old="        if s == Mutex.unlock:\n            log.debug(\"_do_acquire(%s): lock is unlocked!\", self.__id_name)", new="        if True:\n            s = Mutex.unlock\n            log.debug(\"_do_acquire(%s): lock is unlocked!\", self.__id_name)"),
+        dict(name='release-without-ownership', file='db/shelve/comms.py', old="        log.debug(\"_do_release: has_lock => %d\", self.__has_lock)\n        if self.__has_lock:", new="        log.debug(\"_do_release: has_lock => %d\", self.__has_lock)\n        if True:"),
+    ],
+    'C14': [
+        dict(name='hand-reassembly-off-by-one', file=F, old="        while length <= len(self.__buf):\n            if self.__len is None:\n                self.__len = struct.unpack('>I', self.__buf[:length])[0]", new="        while length < len(self.__buf):\n            if self.__len is None:\n                self.__len = struct.unpack('>I', self.__buf[:length])[0]"),
+        dict(name='p4-accepts-any-prefix', file='security.py', old="        return lens[0] == 4\n", new="        return True\n"),
+        dict(name='p5-forwards-before-verifying', file='security.py', old="        if response.valid and self.__dr is not None:\n            setattr(self.__p, 'dataReceived', self.__dr)", new="        if self.__dr is not None:\n            setattr(self.__p, 'dataReceived', self.__dr)"),
+    ],
+    'C15': [
+        dict(name='diff-key-presence-only', file=S, old="        if k not in prev or prev[k].count(curr[k]) == 0:", new="        if k not in prev:"),
+        dict(name='ans-trimmed-to-task', file=S, old="    ans = {'.'.join(item.split('.')[:2]) for item in dalg + dsv + dv}", new="    ans = {'.'.join(item.split('.')[:2]) for item in dalg + dsv}"),
+        dict(name='newer-uses-le', file='__init__.py', old="                and than.bugfix < self.bugfix()\n", new="                and than.bugfix <= self.bugfix()\n"),
+    ],
+    'C16': [
+        dict(name='rule-05-always-true', file='tools/compliant.py', old="    findings = []\n    _walk(task, ifsv=_signal)\n    return all(findings)", new="    findings = []\n    _walk(task, ifsv=_signal)\n    return True"),
+        dict(name='verify-uses-any', file='tools/compliant.py', old="        if not all(result):\n            passed = False", new="        if not any(result):\n            passed = False"),
+    ],
+    'C17': [
+        dict(name='drops-state-vector-constraint', file='db/shelve/search.py', old="            ) and all(not c or e in c for c, e in zip(constraints[1:], pk[1:])):", new="            ) and all(not c or e in c for c, e in zip(constraints[1:4], pk[1:4])):"),
+        dict(name='scrub-merge-off-by-one', file='db/basis.py', old="                        if r.start > merged[-1].stop:", new="                        if r.start >= merged[-1].stop - 1:"),
+        dict(name='keylen-six', file='db/shelve/search.py', old="    def _prime_keys(self, parameters, keylen=5) -> [()]:", new="    def _prime_keys(self, parameters, keylen=4) -> [()]:"),
+    ],
+    'C18': [
+        dict(name='inclusive-bounds', file='pl/logger/chronicle.py', old="                if after < completed < before and entry['status'] == status:", new="                if after <= completed <= before and entry['status'] == status:"),
+        dict(name='sort-ascending', file='pl/logger/chronicle.py', old="    entries.sort(key=_most_recent_first, reverse=True)", new="    entries.sort(key=_most_recent_first)"),
+        dict(name='append-overwrites', file='pl/logger/chronicle.py', old="    if os.path.isfile(journal):\n        with open(journal, 'rt', encoding='utf-8') as file:\n            entries = json.load(file)", new="    if False:\n        pass"),
+    ],
+    'C19': [
+        dict(name='containment-on-unresolved-path', file='fe/__init__.py', old="        ffn = (d / fn).resolve()\n", new="        ffn = d / fn\n"),
+        dict(name='run-in-allow-list', file='security.py', old="            # '/api/cmd/run',  # should require client cert (any)", new="            '/api/cmd/run',"),
+        dict(name='sanctioned-defaults-true', file='security.py', old="            'Could not determine if endpoint is sanctioned. '\n            'Defaulting to False.'\n        )\n    return False", new="            'Could not determine if endpoint is sanctioned. '\n            'Defaulting to False.'\n        )\n    return True"),
+    ],
+    'C20': [
+        dict(name='due-window-zero', file=S, old="                if ts <= 300.0:", new="                if ts <= 0.0:"),
+        dict(name='dow-offset-off-by-one', file=S, old="    today = now.isoweekday() - 1\n", new="    today = now.isoweekday()\n"),
+        dict(name='booted-cleared-by-build', file=S, old="    dawgie.pl.schedule.que = []\n    dawgie.pl.schedule.per = []\n    log.info('build() - computing version differences')", new="    dawgie.pl.schedule.que = []\n    dawgie.pl.schedule.per = []\n    del booted[:]\n    log.info('build() - computing version differences')"),
     ],
 }
